@@ -76,8 +76,10 @@ func (c *Context) SpawnChild(p Producer, name string, opts ...OptFunc) *PID {
 	}
 	proc := newProcess(c.engine, options)
 	proc.context.parentCtx = c
-	pid := c.engine.SpawnProc(proc)
-	c.children.Set(pid.ID, pid)
+	// register the child before it is started: it could already be stopped
+	// again (and remove itself) by the time SpawnProc returns.
+	c.children.Set(proc.pid.ID, proc.pid)
+	c.engine.SpawnProc(proc)
 
 	return proc.PID()
 }
